@@ -116,6 +116,18 @@ def check(ck):
     loop = [n for n in gs.live_nodes() if n.kind == "for_body" and _thread_list(n, n.ast.iter) and n.id in ds[sput[0].id]]
     ck.require(bool(loop), "C11.3", "%s: one sentinel per registered thread" % q.fn(fs), "put inside `for _ in self._threads`",
                "stop() does not queue one wake-up sentinel per registered worker", q.loc(fs, sput[0]))
+    # every registered thread gets its sentinel: inside the loop the put is unconditional and nothing leaves the loop early
+    for (ln, _to) in [(l_, None) for l_ in loop]:
+        body_nodes = [x for st_ in ln.ast.body for x in ast.walk(st_)]
+        # (leaving the loop from the handler of queue.Full is the clean tree's own behaviour: there the try encloses the loop)
+        in_full_handler = set(id(x) for h_ in body_nodes if isinstance(h_, ast.ExceptHandler) and h_.type is not None and "Full" in dump(h_.type)
+                              for b_ in h_.body for x in ast.walk(b_))
+        early = [x for x in body_nodes if isinstance(x, (ast.Break, ast.Continue, ast.Return)) and id(x) not in in_full_handler]
+        guards = [gs.nodes[i] for i in ds[sput[0].id] if gs.nodes[i].kind == "branch" and any(gs.nodes[i].test is x or gs.nodes[i].test in body_nodes for x in body_nodes)]
+        ck.require(not early and not guards, "C11.3", "%s: the sentinel loop puts once per thread, unconditionally" % q.fn(fs), "no guard, no early exit",
+                   "the loop that queues the stop sentinels %s: some registered workers get no sentinel and, blocked in get(), never learn "
+                   "that the pool was stopped" % (("leaves early (`%s`)" % dump(early[0])) if early else (("puts under the condition `%s`" % dump(guards[0].test)) if guards else "")),
+                   q.loc(fs, sput[0]))
     # the sentinel waits for room: a non-blocking put gives up at once on a full queue (the Full handler skips the remaining
     # sentinels), although room appears as soon as a worker dequeues - the workers that got none never learn about the stop
     from vlib.locks import queue_call_bounds
